@@ -75,7 +75,7 @@ def check_c01(prog, rep, tier, cfg):
     # character sequence is compared after decoding, so handing out other bytes changes it
     import orch as _orch
     from engine import AliasReport as _Alias
-    _orch.check_c17(prog, _Alias(rep, [("C17.c", r"ok-payload|anchor:encode", "C01.g")]), tier, cfg)
+    _orch.check_c17(prog, _Alias(rep, [("C17.c", r"ok-payload|anchor:encode|^encode:", "C01.g")]), tier, cfg)
     c01a(prog, rep)
     c01b(prog, rep)
     c01c(prog, rep)
